@@ -458,3 +458,169 @@ Fixpoint dg_collect_calls (tab : list (option nat)) (dt saveStep : Z) (n : nat) 
 Definition dg_table (dt saveStep : Z) (ts : list Z) : list (option nat) :=
   dg_collect_calls (repeat None (Z.to_nat saveStep)) dt saveStep 0 ts.
 Close Scope Z_scope.
+
+(** * 3. Consequences used by Props/C17.v *)
+
+(** ** 3.1 sums: 1-D, 2-D product-of-weights form, replication *)
+Lemma dg_sum_blocks n p (f : nat -> Z) : 0 < p ->
+  dg_sum 0 p (fun k => dg_sum (bstart n p k) (blen n p k) f) = dg_sum 0 n f.
+Proof. apply (dg_fold_blocks Z.add 0%Z Z.add_assoc Z.add_comm Z.add_0_l). Qed.
+
+Lemma dg_sum_blocks_2d n1 n2 p1 p2 (w1 w2 : nat -> Z) (g : nat -> nat -> Z) : 0 < p1 -> 0 < p2 ->
+  dg_sum 0 p1 (fun k1 => dg_sum 0 p2 (fun k2 =>
+    dg_sum (bstart n1 p1 k1) (blen n1 p1 k1) (fun i =>
+      dg_sum (bstart n2 p2 k2) (blen n2 p2 k2) (fun j => w1 i * w2 j * g i j)%Z)))
+  = dg_sum 0 n1 (fun i => dg_sum 0 n2 (fun j => w1 i * w2 j * g i j)%Z).
+Proof.
+  intros H1 H2.
+  pose proof (dg_ndfold_blocks Z.add 0%Z Z.add_assoc Z.add_comm Z.add_0_l [(n1, p1); (n2, p2)]
+                ltac:(repeat constructor; assumption)
+                (fun idx => Z.mul (Z.mul (w1 (nth 0 idx 0)) (w2 (nth 1 idx 0))) (g (nth 0 idx 0) (nth 1 idx 0)))) as H.
+  cbn [dg_rank_ranges dg_full_ranges map fst snd dg_ndfold dg_blocks hd tl nth] in H. exact H.
+Qed.
+
+Definition dg_Z_ndsum_blocks := dg_ndfold_blocks Z.add 0%Z Z.add_assoc Z.add_comm Z.add_0_l.
+
+(** a layout that does not use a process direction of extent R is replicated R times: the SUM over
+    all ranks counts the global quadrature R times *)
+Lemma dg_sum_replicated_inner n p R (f : nat -> Z) : 0 < p ->
+  dg_sum 0 p (fun k1 => dg_sum 0 R (fun _ => dg_sum (bstart n p k1) (blen n p k1) f)) = (Z.of_nat R * dg_sum 0 n f)%Z.
+Proof. intros Hp. rewrite <- (dg_sum_blocks n p f Hp).
+  rewrite (dg_fold_ext Z.add 0%Z 0 p _ (fun k1 => dg_sum (bstart n p k1) (blen n p k1) f * Z.of_nat R)%Z).
+  - rewrite (dg_sum_scale 0 p (Z.of_nat R)). ring.
+  - intros k _. rewrite dg_sum_const. ring. Qed.
+
+Lemma dg_sum_replicated_outer n p R (f : nat -> Z) : 0 < p ->
+  dg_sum 0 R (fun _ => dg_sum 0 p (fun k2 => dg_sum (bstart n p k2) (blen n p k2) f)) = (Z.of_nat R * dg_sum 0 n f)%Z.
+Proof. intros Hp. rewrite dg_sum_const, (dg_sum_blocks n p f Hp). reflexivity. Qed.
+
+(** N-d: ranks (k, ks) of a grid whose first direction (extent R) is not used by the layout *)
+Lemma dg_ndsum_replicated axes R (h : list nat -> Z) : Forall (fun np => 0 < snd np) axes ->
+  dg_ndsum ((0, R) :: dg_rank_ranges axes) (fun kks => dg_ndsum (dg_blocks axes (tl kks)) h)
+  = (Z.of_nat R * dg_ndsum (dg_full_ranges axes) h)%Z.
+Proof. intros Hax. unfold dg_ndsum. cbn [dg_ndfold tl].
+  rewrite (dg_fold_ext Z.add 0%Z 0 R _ (fun _ => dg_ndfold Z.add 0%Z (dg_full_ranges axes) h)).
+  - apply dg_sum_const.
+  - intros k _. apply (dg_Z_ndsum_blocks axes Hax h). Qed.
+
+(** for a field equal to one the result is the product of the per-axis weight sums *)
+Lemma dg_field_one axes (ws : list (nat -> Z)) : Forall (fun np => 0 < snd np) axes -> length ws = length axes ->
+  dg_ndsum (dg_rank_ranges axes) (fun ks => dg_ndsum (dg_blocks axes ks) (fun idx => dg_prodw ws idx * 1)%Z)
+  = dg_prod_sums (dg_full_ranges axes) ws.
+Proof. intros Hax Hl. unfold dg_ndsum. rewrite (dg_Z_ndsum_blocks axes Hax).
+  rewrite (dg_ndfold_ext Z.add 0%Z _ _ (dg_prodw ws)) by (intros; ring).
+  apply dg_ndsum_prodw. unfold dg_full_ranges. rewrite map_length. exact Hl. Qed.
+
+(** ** 3.2 minima / maxima: the fold with [dg_omin] / [dg_omax] is the minimum / maximum *)
+Section DgExt.
+Variable le : Z -> Z -> Prop.
+Variable pick : Z -> Z -> Z.
+Hypothesis le_refl : forall x, le x x.
+Hypothesis le_trans : forall x y z, le x y -> le y z -> le x z.
+Hypothesis pick_l : forall x y, le (pick x y) x.
+Hypothesis pick_r : forall x y, le (pick x y) y.
+Hypothesis pick_cases : forall x y, pick x y = x \/ pick x y = y.
+
+Definition dg_opick (a b : option Z) : option Z :=
+  match a, b with Some x, Some y => Some (pick x y) | Some x, None => Some x | None, y => y end.
+
+(** r is the extremum of the defined values of h over the index set P (None iff there is none) *)
+Definition dg_is_ext {X : Type} (P : X -> Prop) (h : X -> option Z) (r : option Z) : Prop :=
+  (forall x v, P x -> h x = Some v -> exists m, r = Some m /\ le m v)
+  /\ (forall m, r = Some m -> exists x, P x /\ h x = Some m).
+
+Lemma dg_fold_is_ext a k (g : nat -> option Z) :
+  dg_is_ext (fun i => a <= i < a + k) g (dg_fold dg_opick None a k g).
+Proof.
+  revert a. induction k as [|k IH]; intros a; cbn [dg_fold].
+  - split; [intros x v Hx; lia|intros m H; discriminate].
+  - destruct (IH (S a)) as [IH1 IH2]. set (r := dg_fold dg_opick None (S a) k g) in *.
+    split.
+    + intros x v Hx Hv. destruct (Nat.eq_dec x a) as [->|Ne].
+      * rewrite Hv. destruct r as [y|]; cbn [dg_opick]; eexists; split; try reflexivity; [apply pick_l|apply le_refl].
+      * destruct (IH1 x v ltac:(lia) Hv) as [m [Hm Hle]]. rewrite Hm.
+        destruct (g a) as [y|]; cbn [dg_opick]; eexists; split; try reflexivity; [|exact Hle].
+        apply le_trans with m; [apply pick_r|exact Hle].
+    + intros m Hm. destruct (g a) as [y|] eqn:Ea; destruct r as [z|] eqn:Er; cbn [dg_opick] in Hm; try discriminate.
+      * injection Hm as <-. destruct (pick_cases y z) as [E|E]; rewrite E.
+        -- exists a. split; [lia|exact Ea].
+        -- destruct (IH2 z eq_refl) as [x [Hx Hg]]. exists x. split; [lia|exact Hg].
+      * injection Hm as <-. exists a. split; [lia|exact Ea].
+      * destruct (IH2 m Hm) as [x [Hx Hg]]. exists x. split; [lia|exact Hg].
+Qed.
+
+Lemma dg_ndfold_is_ext rs : forall (h : list nat -> option Z),
+  dg_is_ext (dg_inbox rs) h (dg_ndfold dg_opick None rs h).
+Proof.
+  induction rs as [|[a k] rs IH]; intros h; cbn [dg_ndfold].
+  - split.
+    + intros x v Hx Hv. inversion Hx; subst. exists v. split; [exact Hv|apply le_refl].
+    + intros m Hm. exists []. split; [constructor|exact Hm].
+  - destruct (dg_fold_is_ext a k (fun i => dg_ndfold dg_opick None rs (fun idx => h (i :: idx)))) as [F1 F2].
+    split.
+    + intros x v Hx Hv. inversion Hx as [|a' k' rs' i idx Hi Hidx]; subst.
+      destruct (IH (fun idx => h (i :: idx))) as [I1 _].
+      destruct (I1 idx v Hidx Hv) as [m' [Hm' Hle']].
+      destruct (F1 i m' Hi Hm') as [m [Hm Hle]]. exists m. split; [exact Hm|apply le_trans with m'; assumption].
+    + intros m Hm. destruct (F2 m Hm) as [i [Hi Hg]].
+      destruct (IH (fun idx => h (i :: idx))) as [_ I2]. destruct (I2 m Hg) as [idx [Hidx Hh]].
+      exists (i :: idx). split; [constructor; assumption|exact Hh].
+Qed.
+End DgExt.
+
+Lemma dg_omin_is_opick : dg_omin = dg_opick Z.min. Proof. reflexivity. Qed.
+Lemma dg_omax_is_opick : dg_omax = dg_opick Z.max. Proof. reflexivity. Qed.
+
+Lemma dg_zmin_cases x y : Z.min x y = x \/ Z.min x y = y. Proof. lia. Qed.
+Lemma dg_zmax_cases x y : Z.max x y = x \/ Z.max x y = y. Proof. lia. Qed.
+Lemma dg_zge_refl x : (x >= x)%Z. Proof. lia. Qed.
+Lemma dg_zge_trans x y z : (x >= y -> y >= z -> x >= z)%Z. Proof. lia. Qed.
+Lemma dg_zmax_l x y : (Z.max x y >= x)%Z. Proof. lia. Qed.
+Lemma dg_zmax_r x y : (Z.max x y >= y)%Z. Proof. lia. Qed.
+
+Definition dg_min_is_min rs h := dg_ndfold_is_ext Z.le Z.min Z.le_refl Z.le_trans Z.le_min_l Z.le_min_r dg_zmin_cases rs h.
+Definition dg_max_is_max rs h := dg_ndfold_is_ext Z.ge Z.max dg_zge_refl dg_zge_trans dg_zmax_l dg_zmax_r dg_zmax_cases rs h.
+
+(** whole-grid MIN over ranks of the local minima = global minimum, N-d *)
+Definition dg_min_blocks := @dg_ndfold_blocks (option Z) dg_omin None dg_omin_assoc dg_omin_comm dg_omin_e_l.
+Definition dg_max_blocks := @dg_ndfold_blocks (option Z) dg_omax None dg_omax_assoc dg_omax_comm dg_omax_e_l.
+Definition dg_min_slice_blocks := @dg_slice_blocks (option Z) dg_omin None dg_omin_assoc dg_omin_comm dg_omin_e_l.
+Definition dg_max_slice_blocks := @dg_slice_blocks (option Z) dg_omax None dg_omax_assoc dg_omax_comm dg_omax_e_l.
+
+(** 1-D: of all ranks exactly the owner of the fixed index contributes, the others the neutral element *)
+Lemma dg_slice_1d {M} (op : M -> M -> M) (e : M) (op_assoc : forall a b c, op a (op b c) = op (op a b) c)
+  (op_comm : forall a b, op a b = op b a) (op_e_l : forall a, op e a = a) n p x (h : nat -> M) :
+  0 < p -> x < n ->
+  dg_fold op e 0 p (fun k => if dg_inrange (bstart n p k, blen n p k) x then h x else e) = h x.
+Proof.
+  intros Hp Hx.
+  rewrite (dg_fold_ext op e 0 p _ (fun k => dg_fold op e (bstart n p k) (blen n p k) (fun i => if i =? x then h i else e))).
+  2:{ intros k _. rewrite (dg_fold_delta op e op_comm op_e_l). reflexivity. }
+  rewrite (dg_fold_blocks op e op_assoc op_comm op_e_l n p _ Hp), (dg_fold_delta op e op_comm op_e_l).
+  cbn [Nat.add]. destruct (Nat.ltb_spec x n); [reflexivity|lia].
+Qed.
+
+(** ** 3.3 the time slot *)
+Lemma dg_slot_of_step ti dt s r : (0 < dt -> 0 <= r < dt -> dg_slot (ti * dt + r) dt s = ti mod s)%Z.
+Proof. intros Hdt Hr. unfold dg_slot. f_equal. symmetry. apply (Z.div_unique_pos _ dt ti r); lia. Qed.
+
+Lemma dg_slot_range t dt s : (0 < s -> 0 <= dg_slot t dt s < s)%Z.
+Proof. intros Hs. unfold dg_slot. apply Z.mod_pos_bound. exact Hs. Qed.
+
+Lemma dg_slot_next t dt s : (0 < dt -> dg_slot (t + dt) dt s = (dg_slot t dt s + 1) mod s)%Z.
+Proof. intros Hdt. unfold dg_slot. replace (t + dt)%Z with (t + 1 * dt)%Z by ring.
+  rewrite Z.div_add by lia. rewrite Zplus_mod_idemp_l. reflexivity. Qed.
+
+Lemma dg_slot_add t dt s k : (0 < dt -> dg_slot (t + k * dt) dt s = (dg_slot t dt s + k) mod s)%Z.
+Proof. intros Hdt. unfold dg_slot. rewrite Z.div_add by lia. rewrite Zplus_mod_idemp_l. reflexivity. Qed.
+
+(** saveStep consecutive steps never share a slot: nothing is overwritten between two reduce() calls *)
+Lemma dg_slot_distinct t dt s i j : (0 < dt -> 0 < s -> 0 <= i < j -> j < s ->
+  dg_slot (t + i * dt) dt s <> dg_slot (t + j * dt) dt s)%Z.
+Proof.
+  intros Hdt Hs Hi Hj. rewrite !dg_slot_add by exact Hdt.
+  set (a := dg_slot t dt s). intros E.
+  assert (D : (((a + j) - (a + i)) mod s = 0)%Z) by (rewrite Zminus_mod, E, Z.sub_diag; reflexivity).
+  replace (a + j - (a + i))%Z with (j - i)%Z in D by ring.
+  rewrite Z.mod_small in D by lia. lia.
+Qed.
